@@ -385,8 +385,9 @@ theorem observeSent_incMono (pid : UInt16) (s s' : BState) (c : ConnId) (p : Pac
                     if id ≠ 0 then none else
                       some ((s.setSessOf c b1).setConn c (retake { x with deqHand := false, deqChan := min s.cfg.window (x.deqChan + 1) }))
                   else
-                    if (b1.sess.nextID).1 ≠ id then none else
-                      some ((s.setSessOf c { b1 with sess := (b1.sess.nextID).2.savePacket .outgoing (.publish out false id) }).setConn c
+                    if (b1.sess.freshID).1 = 0 then none else
+                    if (b1.sess.freshID).1 ≠ id then none else
+                      some ((s.setSessOf c { b1 with sess := (b1.sess.freshID).2.savePacket .outgoing (.publish out false id) }).setConn c
                         (retake { x with deqHand := false }))) = some s1 → b1.sess = b.sess → IncMono pid s s1 := by
                 intro b1 out s1 hs1 hb1
                 split at hs1
@@ -397,9 +398,11 @@ theorem observeSent_incMono (pid : UInt16) (s s' : BState) (c : ConnId) (p : Pac
                     rw [hb1]; exact fun hh => hh
                 · split at hs1
                   · cases hs1
-                  · injection hs1 with hs1; subst hs1
-                    refine IncMono.trans (incMono_setSessOf pid s c b _ hb ?_) (IncMono.of_stored rfl)
-                    simp only [savePacket_outgoing_incoming, nextID_incoming, hb1]; exact fun hh => hh
+                  · split at hs1
+                    · cases hs1
+                    · injection hs1 with hs1; subst hs1
+                      refine IncMono.trans (incMono_setSessOf pid s c b _ hb ?_) (IncMono.of_stored rfl)
+                      simp only [savePacket_outgoing_incoming, MemorySession.freshID_incoming, hb1]; exact fun hh => hh
               split at h
               · cases h
               · split at h
